@@ -45,6 +45,8 @@ theorem hold_step (g : GW) (op : Op) (hk : KeyRange g) (hne : op ≠ .restart) :
     simp only [step]
     apply hold_filter
     exact relo_setChildValue (holdStepRelO _) g n c vt v a
+      (fun nd _ hn _ _ => hold_storeDesired _ g n c nd _ v hn)
+      (fun nd msg hn hs hm => hold_directSet _ g n c nd _ v msg _ hn hs hm)
   | update nids t v img => exact relo_makeUpdate (holdStepRelO _) g nids t v img
   | clock t => exact ⟨rfl, fun hi => hi, fun _ h => h, fun _ l hl => by simp [step] at hl⟩
   | metric b => exact ⟨rfl, fun hi => hi, fun _ h => h, fun _ l hl => by simp [step] at hl⟩
